@@ -41,6 +41,9 @@ def families(tier):
             {'name': 'twice', 'params': {'builds': 2}},
             # the comparison mode asked for changes from build to build: a change is judged by the mode the previous build recorded
             {'name': 'integrity-switch', 'params': {'builds': 3}},
+            # the watched output is not the first one its (reused) parent recorded: an earlier output lies in the same
+            # directory, in a directory below it, or elsewhere
+            {'name': 'integrity', 'params': {'builds': 2, 'sibling': ['o/e', 'o/d/e', 'p/e']}},
             {'name': 'input', 'params': {'builds': 2, 'chunked': True}},
             {'name': 'integrity', 'params': {'builds': 2, 'chunked': True}}]
     if tier == 'thorough':
@@ -100,7 +103,12 @@ def harness(eng, fam, P):
             body = bodies_seq[0]
         elif fam == 'integrity':
             watch = w.p('o/f')
-            body = _wrap(nest, ('BF', 'o/f', {'mode': 'ok', 'cmp': mode}, []))
+            if P.get('sibling'):
+                sib = P['sibling'][eng.choose('sib', len(P['sibling']))]
+                smode = MODES[eng.choose('smode', 2)]
+                body = _wrap(nest, ('BF', sib, {'mode': 'ok', 'cmp': smode}, []), [('BF', 'o/f', {'mode': 'ok', 'cmp': mode}, [])])
+            else:
+                body = _wrap(nest, ('BF', 'o/f', {'mode': 'ok', 'cmp': mode}, []))
         else:
             wmode = MODES[eng.choose('wmode', 2)]
             watch = w.p('o/f')
